@@ -198,8 +198,8 @@ var (
 	_ImmRanges_IType   = _ImmRange{Align: 1, Min: -(1 << 11), Max: (1 << 11) - 1}
 	_ImmRanges_SType   = _ImmRange{Align: 1, Min: -(1 << 11), Max: (1 << 11) - 1}
 	_ImmRanges_BType   = _ImmRange{Align: 1 << 1, Min: -(1 << 12), Max: (1 << 12) - 2}
-	_ImmRanges_UType   = _ImmRange{Align: 1, Min: -(1 << 20), Max: (1 << 20) - 1}
-	_ImmRanges_JType   = _ImmRange{Align: 1, Min: -(1 << 20), Max: (1 << 20) - 2}
+	_ImmRanges_UType   = _ImmRange{Align: 1, Min: -(1 << 19), Max: (1 << 20) - 1} // a 20-bit field, written signed or unsigned
+	_ImmRanges_JType   = _ImmRange{Align: 1 << 1, Min: -(1 << 20), Max: (1 << 20) - 2}
 	_ImmRanges_Shamt32 = _ImmRange{Align: 1, Min: 0, Max: (1 << 5) - 1}
 	_ImmRanges_Shamt64 = _ImmRange{Align: 1, Min: 0, Max: (1 << 6) - 1}
 )
